@@ -237,11 +237,14 @@ def _array_of_dict_class(op, key, value):
             outs = list(ft.outputs) if hasattr(ft, "outputs") else [ft.output]
             want = len(ins) if key == "arg_attrs" else len([o for o in outs if type(o).__name__ != "LLVMVoidType"])
             if want != n:
-                return "length-mismatch"
+                return "length-mismatch" + ("-on-declaration" if op.regions and not op.regions[0].blocks else "")
         except Exception:  # noqa: BLE001 - classifier only
             pass
     empty = sum(1 for e in value.data if not e.data)
-    return "all-empty" if empty == n else "full" if empty == 0 else "partial"
+    cls = "all-empty" if empty == n else "full" if empty == 0 else "partial"
+    if ft is not None and op.regions and not op.regions[0].blocks:
+        cls += "-on-declaration"  # a function declaration (empty body) is printed by a different branch of the format
+    return cls
 
 
 def _op_pair_diff(a, b, num_a, num_b, ta, tb, res):
